@@ -427,3 +427,18 @@ def sub(base, idx):
     if not isinstance(idx, R):
         idx = const(idx)
     return Evaluator.mk_sub(_dummy, base, idx)
+
+
+def unmut(t):
+    """See through in-place mutation wrappers to the object that was mutated."""
+    def f(a):
+        if a[0] in ("mutated", "setitem", "appended"):
+            return a[1]
+        if a[0] == "objstate":
+            return a[2]
+        return None
+    prev = None
+    while prev != t:
+        prev = t
+        t = T.subst(t, f)
+    return t
